@@ -636,3 +636,15 @@ def rc_possible(F, p, term, adt):
             want_success = t if e[1].endswith("is_success") else (not t)
             poss = {n for n in poss if success(n) == want_success}
     return poss
+
+
+def rc_failing(p):
+    """Whether the path decided that a reason code is a failure code: True / False / None, from whichever predicate the
+    code consulted (`is_failure()` or `!is_success()`); the first decided consultation counts."""
+    for e in p.effects:
+        if e[0] == "call" and e[1].split("::")[-1] in ("is_failure", "is_success"):
+            t = truth(p, e)
+            if t is None:
+                continue
+            return t if e[1].endswith("is_failure") else (not t)
+    return None
